@@ -19,7 +19,7 @@ EXTENDS ErrorOps
 
 CONSTANTS MaxFields, MaxVariants, MaxVFields, EMIT
 
-FieldNames == <<"fa", "fb", "fc", "fd", "fe", "ff">>
+FieldNames == <<"fa", "r#type", "fc", "r#fn", "fe", "ff">>          \* raw identifiers are names like any other
 VarNames   == <<"Va", "Vb", "Vc", "Vd", "Ve", "Vf">>
 
 Fld(name, bad) == [name |-> name, style |-> "field", bad |-> bad, fs |-> <<>>, disc |-> FALSE]
